@@ -1685,7 +1685,9 @@ pub fn compile_grouping_key(
         }
 
         let original_plan = gk_plan;
-        let encoding_range = encoding_range(&gk_plan, planner);
+        // ranges that cannot be shifted to start at zero without overflowing i64 are treated as unknown
+        let encoding_range = encoding_range(&gk_plan, planner)
+            .filter(|&(min, max)| min > i64::MIN / 2 && max < i64::MAX / 2);
         debug!("Encoding range of {:?} for {:?}", &encoding_range, &gk_plan);
         let (max_cardinality, offset) = match encoding_range {
             Some((min, max)) => {
@@ -1829,7 +1831,9 @@ fn try_bitpacking(
     for expr in exprs.iter().rev() {
         let (query_plan, plan_type) =
             QueryPlan::compile_expr(expr, filter, columns, partition_len, planner)?;
-        let encoding_range = encoding_range(&query_plan, planner);
+        // ranges that cannot be shifted to start at zero without overflowing i64 are treated as unknown
+        let encoding_range = encoding_range(&query_plan, planner)
+            .filter(|&(min, max)| min > i64::MIN / 2 && max < i64::MAX / 2);
         debug!(
             "Encoding range of {:?} for {:?}",
             &encoding_range, &query_plan
